@@ -31,9 +31,12 @@ def specs(ck, n, prop, configs):
                  "cli_confine": True, "force": ["existing-type-checking-block", "none-default"]})
     # combinations earlier seeded changes needed (kept deterministic: a detection resting on a few random sources is a miss waiting to happen)
     for j, (style, force) in enumerate([("function-local-from-import", ["module-code", "squares", "decorated"]), ("aliased-from-import", ["noncanonical-partial-annotations", "none-default"]),
-                                        ("aliased-module", ["noncanonical-partial-annotations", "all-param-kinds"]), ("function-local-import", ["generator", "module-code"])]):
+                                        ("aliased-module", ["noncanonical-partial-annotations", "all-param-kinds"]), ("function-local-import", ["generator", "module-code"]),
+                                        # the stub brings nothing new to confine while the source binds / uses TYPE_CHECKING itself
+                                        ("from-import", ["type-checking-try", "none-default"]), ("from-import", ["existing-type-checking-block", "decorated"])]):
         pins.append({"name": f"vfsrc_{prop.lower()}_pin_combo{j}_{ck.seed}", "seed": f"{prop}:pin:combo{j}", "style": style, "configs": configs, "cli": True,
-                     "cli_confine": prop == "C16", "force": force})
+                     "cli_confine": prop == "C16", "force": force,
+                     "forbid": ["existing-type-checking-block", "typing-named-module", "typing"] if "type-checking-try" in force else None})
     verbose = ("import typing\n\n\ndef total(values: typing.Optional[typing.Union[typing.List[int], typing.Tuple[int, ...]]] = None, "
                "start: typing.Optional[typing.Union[int, float, complex]] = 0) -> typing.Optional[typing.Union[int, float, complex]]:\n"
                "    return sum(values or []) + start\n\n\ndef label(n: typing.Union[int, str, bytes, None] = 1) -> typing.Union[str, bytes, None]:\n"
